@@ -775,6 +775,9 @@ func (s *c02State) history(resend func() c02TokenResult) {
 			s.s2sHonest("second")
 			x.Class("history:second-request")
 			stateChanged = true
+		case "replay_after":
+			s.replayAfter(op.Arg)
+			stateChanged = true
 		}
 	}
 	// closing sweep: every token of the model answers according to its issuance state, on both endpoints
@@ -785,6 +788,54 @@ func (s *c02State) history(resend func() c02TokenResult) {
 	if n := len(s.fx.storeKeys("serveraccesstoken/")); n != len(s.tokens) {
 		x.Violate("store:token-count", "access-token store holds %d entries, %d tokens were issued", n, len(s.tokens))
 	}
+}
+
+// replayAfter: present a presentation P (own nonce, 5 s of validity starting `o` seconds from now), let `d` seconds
+// pass, present P again: over the whole history one presentation (nonce) yields at most one token.
+//
+// The node has no clock hook and sleeping 15-25 s per case is out of the question, so the passage of d seconds is
+// realised exactly on both things that depend on time here: (1) every entry of the session store (real go-cache TTLs)
+// gets d seconds less to live (entries that would have expired are removed); (2) the second presentation carries
+// created/expires shifted back by d, i.e. the same instants as seen from a clock that is d seconds further (it is
+// signed anew - the signature covers the dates - which the node's logic cannot tell from the same bytes arriving later).
+func (s *c02State) replayAfter(arg int) {
+	x, c := s.x, s.c
+	legs := s.legs()
+	if c.Flow != "s2s" || len(legs) != 1 {
+		return
+	}
+	o := time.Duration([]int{9, 4, 0, -4, 5, 7, 10, -10}[arg%8]) * time.Second
+	d := time.Duration([]int{16, 15, 14, 20, 25, 6, 11}[(arg/8)%7]) * time.Second
+	format := "ldp_vp" // (the window of JSON-LD presentations is the one the verifier widens by its clock-skew tolerance)
+	if arg%5 == 0 {
+		format = c.VPFmt
+	}
+	leg, nonce, clientID := legs[0], s.nonce(), c02ClientIDs[c.ClientID]
+	send := func(shift time.Duration) (c02TokenResult, *c02Request, c02Rendered) {
+		r := c02Honest(c, leg.PD, leg.Signer, s.fx.issuer, nonce, "single", &s.seq)
+		r.Scope, r.ClientID = c02Ptr(s.scope().Name), c02Ptr(clientID)
+		m := r.main()
+		m.Format, m.AudString = format, false
+		m.Created, m.Expires = o-shift, c02Ptr(o+5*time.Second-shift)
+		rd := s.fx.render(x, r)
+		return s.callToken(s.s2sBody(r, rd), false), r, rd
+	}
+	x.Classf("history:replay_after:created%+ds,after=%ds,%s", int(o.Seconds()), int(d.Seconds()), format)
+	res1, r1, rd1 := send(0)
+	if res1.Token == nil {
+		x.Class("history:replay_after:first-presentation-refused") // outside the window this node accepts: nothing to replay
+		return
+	}
+	s.record(res1, clientID, s.scope().Name, []*c02Request{r1}, []c02Rendered{rd1})
+	s.fx.advanceStore(d)
+	res2, r2, rd2 := send(d)
+	x.NonTrivial()
+	if res2.Token != nil {
+		x.Violate("replay-accepted:s2s:after-clock-advance", "a presentation (created %+ds, valid 5 s) was turned into a token, and %ds later (nonce %q) into a second one", int(o.Seconds()), int(d.Seconds()), nonce)
+		s.record(res2, clientID, s.scope().Name, []*c02Request{r2}, []c02Rendered{rd2}).Tainted = true
+		return
+	}
+	x.Class("history:replay_after:second-refused:" + c02ErrClass(res2.Err))
 }
 
 // ---------------------------------------------------------------------------------------------------------------------
